@@ -4,11 +4,13 @@
 For every module of /repo/streamflow (generated parser excluded) two in-memory variants are built:
   rename : every local variable of every function is renamed (x -> x_r), consistently in the function subtree
   pad    : a `pass` statement is inserted at the start of every statement block
+  ifswap / guard / tempret / mergeif / splitif / elsedrop / walrusout / comp2loop : mechanical behaviour-preserving
+           restructurings applied at every eligible site of the module (see the transformer classes)
 and every ready check is run against the variant program.  Any new finding or analysis error is printed.
 
 usage: tools/benign_battery.py [--kinds rename,pad] [--modules substr,...] [--props C10,C11] [-j N]
 """
-import ast, builtins, json, os, sys, time
+import ast, builtins, collections, json, os, sys, time
 from concurrent.futures import ProcessPoolExecutor
 
 sys.path.insert(0, os.path.dirname(os.path.dirname(os.path.abspath(__file__))))
@@ -84,9 +86,209 @@ class Padder(ast.NodeTransformer):
         return node
 
 
+def _neg(e):
+    if isinstance(e, ast.UnaryOp) and isinstance(e.op, ast.Not):
+        return e.operand
+    return ast.UnaryOp(op=ast.Not(), operand=e)
+
+
+def _ends_flow(stmts):
+    return bool(stmts) and isinstance(stmts[-1], (ast.Return, ast.Raise, ast.Continue, ast.Break))
+
+
+class _Blocks(ast.NodeTransformer):
+    """Base: rewrites every statement list bottom-up through `block(stmts, owner, field)`."""
+
+    def generic_visit(self, node):
+        super().generic_visit(node)
+        for fld in ("body", "orelse", "finalbody"):
+            b = getattr(node, fld, None)
+            if isinstance(b, list) and b and isinstance(b[0], ast.stmt):
+                setattr(node, fld, self.block(b, node, fld))
+        return node
+
+    def block(self, stmts, owner, fld):
+        return stmts
+
+
+class IfSwap(_Blocks):
+    """if A: X else: Y  ->  if not A: Y else: X   (no elif chains)"""
+
+    def block(self, stmts, owner, fld):
+        for s in stmts:
+            if isinstance(s, ast.If) and s.orelse and not (len(s.orelse) == 1 and isinstance(s.orelse[0], ast.If)) \
+                    and not (isinstance(owner, ast.If) and fld == "orelse" and len(stmts) == 1):
+                s.test, s.body, s.orelse = _neg(s.test), s.orelse, s.body
+        return stmts
+
+
+class Guard(_Blocks):
+    """last statement `if A: body` (no else) of a function / loop body  ->  `if not A: return|continue` + body"""
+
+    def block(self, stmts, owner, fld):
+        if fld != "body" or not isinstance(owner, (ast.FunctionDef, ast.AsyncFunctionDef, ast.For, ast.AsyncFor, ast.While)):
+            return stmts
+        last = stmts[-1]
+        if isinstance(last, ast.If) and not last.orelse and len(last.body) >= 2:
+            leave = ast.Return(value=None) if isinstance(owner, (ast.FunctionDef, ast.AsyncFunctionDef)) else ast.Continue()
+            return stmts[:-1] + [ast.If(test=_neg(last.test), body=[leave], orelse=[])] + last.body
+        return stmts
+
+
+class TempRet(_Blocks):
+    """return <expr>  ->  _sf_ret = <expr>; return _sf_ret"""
+
+    def block(self, stmts, owner, fld):
+        out = []
+        for s in stmts:
+            if isinstance(s, ast.Return) and s.value is not None and not isinstance(s.value, (ast.Name, ast.Constant)):
+                out.append(ast.Assign(targets=[ast.Name(id="_sf_ret", ctx=ast.Store())], value=s.value, lineno=0))
+                out.append(ast.Return(value=ast.Name(id="_sf_ret", ctx=ast.Load())))
+            else:
+                out.append(s)
+        return out
+
+
+class MergeIf(_Blocks):
+    """if a: (if b: X)  ->  if a and b: X   (no else on either)"""
+
+    def block(self, stmts, owner, fld):
+        for s in stmts:
+            while isinstance(s, ast.If) and not s.orelse and len(s.body) == 1 and isinstance(s.body[0], ast.If) and not s.body[0].orelse:
+                inner = s.body[0]
+                s.test = ast.BoolOp(op=ast.And(), values=[s.test, inner.test])
+                s.body = inner.body
+        return stmts
+
+
+class SplitIf(_Blocks):
+    """if a and b: X  ->  if a: if b: X   (no else)"""
+
+    def block(self, stmts, owner, fld):
+        for s in stmts:
+            if isinstance(s, ast.If) and not s.orelse and isinstance(s.test, ast.BoolOp) and isinstance(s.test.op, ast.And):
+                first, rest = s.test.values[0], s.test.values[1:]
+                inner = ast.If(test=rest[0] if len(rest) == 1 else ast.BoolOp(op=ast.And(), values=rest), body=s.body, orelse=[])
+                s.test, s.body = first, [inner]
+        return stmts
+
+
+class ElseDrop(_Blocks):
+    """if A: ...; return|raise|continue|break  else: Y   ->   if A: ...; return   Y"""
+
+    def block(self, stmts, owner, fld):
+        out = []
+        for s in stmts:
+            if isinstance(s, ast.If) and s.orelse and _ends_flow(s.body) and not (len(s.orelse) == 1 and isinstance(s.orelse[0], ast.If)) \
+                    and not (isinstance(owner, ast.If) and fld == "orelse" and len(stmts) == 1):
+                tail, s.orelse = s.orelse, []
+                out.append(s)
+                out.extend(tail)
+            else:
+                out.append(s)
+        return out
+
+
+class WalrusOut(_Blocks):
+    """if (x := e) ...:  ->  x = e; if x ...:   (only when the walrus is the first thing the test evaluates; not for elif)"""
+
+    @staticmethod
+    def _first(test):
+        """(holder, attribute) of the NamedExpr evaluated first and unconditionally, or None."""
+        node, path = test, None
+        while True:
+            if isinstance(node, ast.NamedExpr):
+                return path
+            if isinstance(node, ast.UnaryOp) and isinstance(node.op, ast.Not):
+                node, path = node.operand, (node, "operand")
+            elif isinstance(node, ast.Compare):
+                node, path = node.left, (node, "left")
+            elif isinstance(node, ast.BoolOp):
+                nxt = node.values[0]
+                holder = node
+                node, path = nxt, (holder, 0)
+            else:
+                return None
+
+    def block(self, stmts, owner, fld):
+        if isinstance(owner, ast.If) and fld == "orelse" and len(stmts) == 1:
+            return stmts
+        out = []
+        for s in stmts:
+            if isinstance(s, ast.If):
+                t = s.test
+                if isinstance(t, ast.NamedExpr):
+                    out.append(ast.Assign(targets=[ast.Name(id=t.target.id, ctx=ast.Store())], value=t.value, lineno=0))
+                    s.test = ast.Name(id=t.target.id, ctx=ast.Load())
+                else:
+                    pth = self._first(t)
+                    if pth is not None:
+                        holder, key = pth
+                        ne = holder.values[key] if isinstance(key, int) else getattr(holder, key)
+                        out.append(ast.Assign(targets=[ast.Name(id=ne.target.id, ctx=ast.Store())], value=ne.value, lineno=0))
+                        repl = ast.Name(id=ne.target.id, ctx=ast.Load())
+                        if isinstance(key, int):
+                            holder.values[key] = repl
+                        else:
+                            setattr(holder, key, repl)
+            out.append(s)
+        return out
+
+
+class Comp2Loop(ast.NodeTransformer):
+    """x = [elt for t in it if c]  ->  x = []; for t in it: if c: x.append(elt)   (single sync generator; the loop
+    variables must not occur anywhere else in the function)"""
+
+    def _fn(self, node):
+        self.generic_visit(node)
+        names = collections.Counter(n.id for n in ast.walk(node) if isinstance(n, ast.Name))
+        args = {a.arg for a in ast.walk(node) if isinstance(a, ast.arg)}
+
+        def rewrite(stmts):
+            out = []
+            for s in stmts:
+                for fld in ("body", "orelse", "finalbody"):
+                    b = getattr(s, fld, None)
+                    if isinstance(b, list) and b and isinstance(b[0], ast.stmt) and not isinstance(s, (ast.FunctionDef, ast.AsyncFunctionDef, ast.ClassDef)):
+                        setattr(s, fld, rewrite(b))
+                if isinstance(s, ast.Try):
+                    for h in s.handlers:
+                        h.body = rewrite(h.body)
+                ok = (isinstance(s, ast.Assign) and len(s.targets) == 1 and isinstance(s.targets[0], ast.Name) and isinstance(s.value, ast.ListComp)
+                      and len(s.value.generators) == 1 and not s.value.generators[0].is_async)
+                if ok:
+                    comp = s.value
+                    g = comp.generators[0]
+                    inside = collections.Counter(n.id for n in ast.walk(comp) if isinstance(n, ast.Name))
+                    tvars = {n.id for n in ast.walk(g.target) if isinstance(n, ast.Name)}
+                    tgt = s.targets[0].id
+                    ok = (all(names[v] == inside[v] and v not in args for v in tvars) and inside[tgt] == 0
+                          and not any(isinstance(n, (ast.NamedExpr, ast.Await, ast.Yield, ast.YieldFrom, ast.Lambda, ast.ListComp, ast.GeneratorExp, ast.SetComp, ast.DictComp))
+                                      for n in ast.walk(comp) if n is not comp))
+                if ok:
+                    body = [ast.Expr(value=ast.Call(func=ast.Attribute(value=ast.Name(id=tgt, ctx=ast.Load()), attr="append", ctx=ast.Load()), args=[comp.elt], keywords=[]))]
+                    for c in reversed(g.ifs):
+                        body = [ast.If(test=c, body=body, orelse=[])]
+                    out.append(ast.Assign(targets=[ast.Name(id=tgt, ctx=ast.Store())], value=ast.List(elts=[], ctx=ast.Load()), lineno=0))
+                    out.append(ast.For(target=g.target, iter=g.iter, body=body, orelse=[], lineno=0))
+                else:
+                    out.append(s)
+            return out
+
+        node.body = rewrite(node.body)
+        return node
+
+    visit_FunctionDef = _fn
+    visit_AsyncFunctionDef = _fn
+
+
+KINDS = {"rename": Renamer, "pad": Padder, "ifswap": IfSwap, "guard": Guard, "tempret": TempRet, "mergeif": MergeIf, "splitif": SplitIf,
+         "elsedrop": ElseDrop, "walrusout": WalrusOut, "comp2loop": Comp2Loop}
+
+
 def variant_source(src, kind):
     tree = ast.parse(src)
-    tree = (Renamer() if kind == "rename" else Padder()).visit(tree)
+    tree = KINDS[kind]().visit(tree)
     ast.fix_missing_locations(tree)
     return ast.unparse(tree) + "\n"
 
